@@ -243,6 +243,36 @@ class KaniBuild:
                    "        assert!(x != 0x5A, \"vacuity.must_fail\");\n    }")
         mod.append("}")
         an.append(irs, "\n".join(mod) + "\n")
+        # ---- assembler synonym table (C06): every spelling is emitted as a mnemonic the interpreter defines,
+        #      and that mnemonic carries the spelling's Intel predicate
+        prs = "src/lib/preprocessor/preprocessor.rs"
+        ptext, pacts, pprods = prodtable.load(os.path.join(self.dst, prs))
+        terms = sorted({kani_l3.term_text(p.syms[0]) for p in prods if p.nt == "jumps_condition" and kani_l3.is_term(p.syms[0])})
+        pat = " | ".join(f'"{t}"' for t in terms) or '""'
+        S, V = kani_l1.S, kani_l1.V
+        pmod = ["", "#[cfg(kani)]", "#[allow(non_snake_case, unused_variables)]", "mod verif_l3 {", "    use super::*;"]
+        nsyn = 0
+        for p in pprods:
+            if p.nt != "quote_jmps_loops" or len(p.syms) != 1 or not kani_l3.is_term(p.syms[0]):
+                continue
+            sp = kani_l3.term_text(p.syms[0])
+            hname = "h_pp_quote_jmps_loops_" + sp
+            body = (f"        let ctx = {V}::forged::<util::Context>();\n        let out = {V}::forged::<util::Output>();\n"
+                    f"        let r: String = __action{p.action}(ctx, out, \"\", (0, \"\", 0));\n"
+                    f"        let in_flag: u16 = kani::any();\n        let in_cx: u16 = kani::any();\n"
+                    f"        assert!(matches!(r.as_str(), {pat}), \"synonym.emitted_mnemonic_exists_in_interpreter\");\n"
+                    f"        let a = {S}::cond(r.as_str(), in_flag, in_cx);\n        let b = {S}::cond(\"{sp.lower()}\", in_flag, in_cx);\n"
+                    f"        assert!(b.is_some(), \"synonym.spelling_known_to_reference\");\n"
+                    f"        assert!(a == b, \"synonym.same_intel_predicate\");\n"
+                    f"        kani::cover!(true, \"reachable\");")
+            pmod += ["    #[kani::proof]", "    #[kani::unwind(16)]", f"    fn {hname}() {{", body, "    }"]
+            self.units[hname] = Unit(hname, ["C06"], "P",
+                                     ["synonym.emitted_mnemonic_exists_in_interpreter", "synonym.spelling_known_to_reference", "synonym.same_intel_predicate"],
+                                     "production", p.sig + "  (assembler)", prs, {"kind": "synonym", "spelling": sp}, group="synonym")
+            nsyn += 1
+        pmod.append("}")
+        if nsyn:
+            an.append(prs, "\n".join(pmod) + "\n")
         for u in self.units.values():
             u.driver = "kani" if (u.kind == "contract" or u.name.lstrip("kf_") in self._sv or u.name in self._sv) else "own"
         for f in self.findings:
